@@ -144,17 +144,22 @@ def monitor(ctx):
     sel = sel if thorough else sel[::3]
     for j, cn in enumerate(sel):
         for ser in ([340.0, 369.41, 369.41, 420.0, 420.0, 420.0], [400.0, 400.0, 369.41, 369.41, 500.0], [369.41, 330.0, 330.0]):
-            jobs.append((cn, ser, 1986 + j % 3))
+            jobs.append((cn, ser, 1986 + j % 3, 369.41))
+        # ... and with the USER's reference concentration (400 / 330 ppm): 1 at THAT value in every season
+        jobs.append((cn, [380.0, 400.0, 400.0, 430.0], 1986 + j % 3, 400.0))
+        jobs.append((cn, [330.0, 330.0, 369.41], 1987, 330.0))
     res2 = sim.pmap(_season_fco2_job, jobs, timeout=300)
     seasons_seen = 0
-    for (cn, ser, y0), r in zip(jobs, res2):
+    for (cn, ser, y0, ref), r in zip(jobs, res2):
         if not r.get("ok"):
             continue
         seen = {}
         for k, conc, f in r["seasons"]:
             seasons_seen += 1; evals += 1
-            if abs(conc - 369.41) < 1e-9 and abs(f - 1) > TOL:
-                bad("C17:fco2_ref_season:%s" % cn, "fCO2 in force in season %d is %.9g at the reference concentration" % (k, f), {"crop": cn, "series": ser, "first_year": y0, "season": k})
+            if abs(conc - ref) < 1e-9 and abs(f - 1) > TOL:
+                bad("C17:fco2_ref_season:%s" % cn, "fCO2 in force in season %d is %.9g at the reference concentration %.6g" % (k, f, ref), {"crop": cn, "series": ser, "first_year": y0, "season": k, "ref": ref})
+            if (conc > ref and f < 1 - TOL) or (conc < ref and f > 1 + TOL):
+                bad("C17:fco2_side_season:%s" % cn, "fCO2 in force in season %d is %.9g at %.6g ppm with reference %.6g (must be >= 1 above the reference, <= 1 below)" % (k, f, conc, ref), {"crop": cn, "series": ser, "first_year": y0, "season": k, "ref": ref})
             for c0, f0 in seen.items():
                 if abs(c0 - conc) < 1e-9 and abs(f0 - f) > TOL:
                     bad("C17:fco2_function_season:%s" % cn, "two seasons with the same concentration %.6g have factors %.9g and %.9g" % (conc, f0, f), {"crop": cn, "series": ser, "first_year": y0, "season": k})
@@ -169,13 +174,13 @@ def monitor(ctx):
 def _season_fco2_job(job):
     """(crop, yearly ppm series, first year) -> per season (index, concentration in force, fCO2 in force) of a run over the series' years + 1"""
     import sim, pandas as pd
-    cn, ser, y0 = job
+    cn, ser, y0, ref = job
     try:
         plant = sim.default_planting(rng_for("c17", cn), cn, "champion_climate.txt")
         cfg = {"start": "%d/%s" % (y0, plant), "end": "%d/12/30" % (y0 + len(ser)), "weather": {"file": "champion_climate.txt", "ops": []},
                "crop": {"name": cn, "planting_date": plant, "harvest_date": None, "kwargs": {}}, "off_season": False,
                "soil": {"type": "SandyLoam", "kwargs": {}}, "iwc": None, "irr": {"irrigation_method": 0}, "field": None, "fallow_field": None, "gw": None,
-               "co2": {"series": [[y0 + i, p] for i, p in enumerate(ser)]}}
+               "co2": dict({"series": [[y0 + i, p] for i, p in enumerate(ser)]}, **({} if ref == 369.41 else {"ref_concentration": ref}))}
         m = sim.build_model(cfg); m._initialize()
         out = []; seen = set()
         while not m._clock_struct.model_is_finished:
